@@ -11,11 +11,466 @@ carry no graph.  The simulated-market part also runs with the hedger in evaluati
 after fit(validation=True) which leaves it there) and with user models built from pfhedge's own modules:
 a no-transaction-band strategy whose trainable band edges are the tensor-valued bounds of Clamp /
 LeakyClamp, and a Black-Scholes delta evaluated at trainable (shifted / marked-up) inputs.
+Inside fit (check_fit_steps): the gradient handed to the optimiser at EVERY step (a recording optimiser, instance or class,
+owning parameters inside and outside hedger.parameters(), >= 2 epochs, with and without a backward pass made before fit) vs
+autograd / finite differences of that epoch's loss on that epoch's recorded paths, and vs the Lean op "grad_h".
 """
 import math
 from fractions import Fraction as F
 from common import *  # noqa
 from hedge_common import *  # noqa
+
+
+def check_multi(ctx, torch, nn, Hedger):
+    """H >= 1 hedging instruments (the derivative's underlier plus listed a*S+b derivatives / further primaries, each with its own cost rate),
+    models with H outputs, with and without prev_hedge (width H), and the criteria of `CritH` including the isoelastic loss (on positive wealth:
+    a clause shifts the payoff) and OCE with its own trainable w: torch.autograd.grad of criterion(compute_portfolio(d, hedge), d.payoff()) --
+    what compute_loss evaluates -- vs (predicate) central finite differences of the real loss and (correspondence) the eps-parts of the Lean
+    model `lossOfH` at dual numbers, op "grad_h".  Uses its own generator: the cases of the other parts do not move."""
+    from pfhedge.instruments import BrownianStock, EuropeanOption
+    from pfhedge.nn.modules.loss import OCE
+    g = Gen(f"{ctx.seed}:grad_h")
+    dt = torch.float64
+    want = 50 if ctx.tier == "quick" else 500
+    CRITS = ["erm", "es", "eloss", "mse", "mean", "iso1", "iso", "iso", "oce_exp", "oce_exp", "oce_quad"]
+    SHIFT = 64.0
+    reqs, metas = [], []
+    accepted = attempts = rejected = 0
+    while accepted < want and attempts < 6 * want:
+        attempts += 1
+        mk = gen_market(g, N=g.choice([2, 3, 4, 5]), T=g.choice([2, 3, 4, 5]), primary=g.choice(["BrownianStock", "HestonStock"]))
+        mk["cost"] = F(g.choice([0, 4, 16, 32]), 256)
+        mk["option"] = g.choice(["EuropeanOption", "LookbackOption"])
+        N, T = mk["N"], mk["T"]
+        H = g.choice([2, 2, 2, 3, 3])
+        stateful = g.chance(0.5)
+        names = [g.choice(["moneyness", "time_to_maturity", "volatility", "max_moneyness", "barrier_up", "underlier_spot", "variance"])
+                 for _ in range(g.choice([1, 2]))]
+        thr = g.choice([x for p in mk["spot"] for x in p])
+        width = len(names) + (H if stateful else 0)
+        relu = g.chance(0.4)
+        ms = gen_mlp(g, width, H) if relu else gen_linear(g, width, H, relu=False)
+        critk = CRITS[attempts % len(CRITS)]
+        a = g.choice([0.5, 1.0, 2.0])
+        k = min(g.choice([1, 2, 4]), N) if critk == "es" else None
+        d, u = build_derivative(torch, mk)
+        # hedging instruments: the underlier, then listed derivatives priced a*S+b (on another underlier or on the derivative's own) / primaries
+        hedge, hspec = [u], [{"kind": "primary", "rows": mk["spot"], "cost": mk["cost"]}]
+        for _ in range(1, H):
+            kind = g.choice(["listed", "listed", "primary", "self"])
+            cj = F(g.choice([0, 2, 8, 24]), 256)
+            rows = mk["spot"] if kind == "self" else [[g.dy(F(1, 2), 4, 3) for _ in range(T)] for _ in range(N)]
+            if kind == "primary":
+                s_ = BrownianStock(cost=float(cj), dt=float(mk["dt"]), dtype=dt)
+                s_.register_buffer("spot", tens(torch, rows))
+                hedge.append(s_)
+                hspec.append({"kind": "primary", "rows": rows, "cost": cj})
+            else:
+                if kind == "self":
+                    s_ = u
+                else:
+                    s_ = BrownianStock(dt=float(mk["dt"]), dtype=dt)
+                    s_.register_buffer("spot", tens(torch, rows))
+                o = EuropeanOption(s_, maturity=(T - 1) * float(mk["dt"]))
+                pa, pb = g.choice([F(1), F(2), F(1, 2)]), g.choice([F(0), F(1), F(-1, 4)])
+                o.list(lambda dd, a_=float(pa), b_=float(pb): dd.ul().spot * a_ + b_, cost=float(cj))
+                hedge.append(o)
+                hspec.append({"kind": "listed", "a": pa, "b": pb, "rows": rows, "cost": cj})
+        feats = [feature_obj(torch, nm, mk, thr) for nm in names] + (["prev_hedge"] if stateful else [])
+        model = model_obj(torch, ms)
+        adds, w0, util = [], None, None
+        if critk == "erm":
+            crit, crit_spec = nn.EntropicRiskMeasure(a), ["erm", float_bits(a)]
+        elif critk == "eloss":
+            crit, crit_spec = nn.EntropicLoss(a), ["eloss", float_bits(a)]
+        elif critk == "es":
+            crit, crit_spec = nn.ExpectedShortfall(k / N), ["es", k]
+        elif critk == "mse":
+            crit, crit_spec = torch.nn.MSELoss(), ["mse"]
+        elif critk == "mean":
+            class NegMean(nn.HedgeLoss):
+                def forward(self, input, target=0.0):
+                    return -(input - target).mean(0)
+            crit, crit_spec = NegMean(), ["mean"]
+        elif critk in ("iso1", "iso"):
+            a = 1.0 if critk == "iso1" else g.choice([0.25, 0.5, 0.75])
+            crit, crit_spec = nn.IsoelasticLoss(a), ["iso", float_bits(a), a == 1.0]
+            # positive wealth: the derivative pays SHIFT less (a clause of the derivative; the model applies the same clause to its payoff)
+            d.add_clause("shift", lambda dd, p_: p_ - SHIFT)
+            adds = [["shift", ["affine", float_bits(1.0), float_bits(-SHIFT)]]]
+        else:
+            w0 = g.choice([0.0, 0.25, -0.5, 1.0])
+            if critk == "oce_exp":
+                a = g.choice([0.5, 1.0, 0.25])
+                util = ["exp", float_bits(a)]
+                crit = OCE(lambda x, a_=a: 1 - (-(a_ * x)).exp())
+            else:
+                qa, qb = g.choice([-0.125, -0.0625, -0.25]), g.choice([1.0, 0.5])
+                util = ["quad", float_bits(qa), float_bits(qb)]
+                crit = OCE(lambda x, a_=qa, b_=qb: a_ * x * x + b_ * x)
+            with torch.no_grad():
+                crit.w.fill_(w0)
+            crit_spec = ["oce", util, float_bits(w0)]
+        hedger = Hedger(model, feats, criterion=crit)
+        case = {"multi": True, "H": H, "hedges": [{"kind": h_["kind"], "cost": rat_str(h_["cost"]), "a": rat_str(h_.get("a", F(1))), "b": rat_str(h_.get("b", F(0))),
+                                                   "spot": enc_rat(h_["rows"])} for h_ in hspec],
+                "features": names, "stateful": stateful, "model": model_json(ms), "crit": critk, "a": a, "k": k, "w": w0, "utility": util,
+                "option": mk["option"], "call": mk["call"], "primary": mk["primary"], "N": N, "T": T, "vol": enc_rat(mk["vol"]),
+                "strike": rat_str(mk["strike"]), "dt": rat_str(mk["dt"]), "thr": rat_str(thr)}
+        params = list(model.parameters())
+        wpar = [crit.w] if w0 is not None else []
+
+        def loss_fn():
+            pf = hedger.compute_portfolio(d, hedge=hedge)
+            return crit(pf, d.payoff())
+        inject(torch, u, mk)
+        st, loss, _ = call_impl(loss_fn)
+        if st != "ok":
+            ctx.case(case, False, tag="grad_h")
+            ctx.fail("computing the hedging loss raised", case, key="grad_h:loss-error", detail=loss)
+            continue
+        st, grads, _ = call_impl(torch.autograd.grad, loss, params + wpar, allow_unused=True)
+        if st != "ok":
+            ctx.case(case, False, tag="grad_h")
+            ctx.fail("back-propagating the hedging loss raised", case, key="grad_h:backward-error", detail=grads)
+            continue
+        gflat = []
+        for p_, gr in zip(params + wpar, grads):
+            gflat += ([0.0] * p_.numel() if gr is None else [float(x) for x in gr.reshape(-1).tolist()])
+        # generic point?  (kinks of |position change| / |initial position| count for instruments with a non-zero cost rate only)
+        with torch.no_grad():
+            unit = hedger.compute_hedge(d, hedge=hedge)      # (N, H, T)
+            kink = False
+            for j_, h_ in enumerate(hspec):
+                if h_["cost"] > 0:
+                    if T > 2 and bool((unit[:, j_, :].diff(dim=-1).abs()[..., :-1] < 2 ** -20).any()):
+                        kink = True
+                    if bool((unit[:, j_, 0].abs() < 2 ** -20).any()):
+                        kink = True
+            if relu:
+                pre_min = [float("inf")]
+
+                def hook(mod, inp):
+                    pre_min[0] = min(pre_min[0], float(inp[0].abs().min()))
+                hs = [m_.register_forward_pre_hook(hook) for m_ in model.modules() if isinstance(m_, torch.nn.ReLU)]
+                hedger.compute_hedge(d, hedge=hedge)
+                for h_ in hs:
+                    h_.remove()
+                kink = kink or pre_min[0] < 2 ** -20
+            plv = (hedger.compute_portfolio(d, hedge=hedge) - d.payoff()).sort().values
+            if critk == "es" and k < N:
+                kink = kink or bool((plv[k] - plv[k - 1]).abs() < 2 ** -20)
+            if critk in ("iso1", "iso"):
+                kink = kink or not bool(plv[0] >= 1.0)      # wealth must stay positive (also under the finite-difference steps)
+        for key_ in (f"multi:crit={critk}", f"multi:H={H}", f"multi:stateful={stateful}", f"multi:relu={relu}",
+                     f"multi:kinds={'+'.join(sorted(set(h_['kind'] for h_ in hspec)))}"):
+            ctx.stats[key_] += 1
+        if kink or not all(math.isfinite(x) for x in gflat + [float(loss.detach())]):
+            rejected += 1
+            ctx.stats["multi:rejected_near_kink"] += 1
+            continue
+        accepted += 1
+        ctx.case(case, True, tag="grad_h")
+        ctx.traces += 1
+        # ---- predicate: central finite differences of the REAL loss on the same paths
+        #      (OCE's w is a float32 parameter: steps that are exact in float32)
+        def fd_all(hd, hs_):
+            out = []
+            with torch.no_grad():
+                for p_ in params + wpar:
+                    flat = p_.view(-1)
+                    h = hd if p_.dtype == torch.float64 else hs_
+                    for i in range(flat.numel()):
+                        old = float(flat[i])
+                        flat[i] = old + h
+                        lp = float(loss_fn())
+                        flat[i] = old - h
+                        lm = float(loss_fn())
+                        flat[i] = old
+                        out.append((lp - lm) / (2 * h))
+            return out
+        fd = fd_all(2.0 ** -20, 2.0 ** -12)
+        scale = max(1.0, max(abs(x) for x in fd), abs(float(loss.detach())))
+        badi = [i for i, (a_, b_) in enumerate(zip(gflat, fd)) if not abs(a_ - b_) <= 2e-5 * scale]
+        if badi:
+            fd2 = fd_all(2.0 ** -30, 2.0 ** -18)
+            badi = [i for i in badi if not abs(gflat[i] - fd2[i]) <= 1e-3 * scale]
+        if badi:
+            ctx.fail("the back-propagated gradient of the hedging loss (several hedging instruments) differs from the derivative of the loss "
+                     "(finite differences on the same paths)", case,
+                     key=f"grad_h:{'stateful' if stateful else 'batched'}:{critk}", detail={"autograd": gflat, "finite_difference": fd, "params": badi})
+        # ---- model (dual numbers), op "grad_h"
+        layers = [{"w": enc_flt([[float(x) for x in r] for r in l["w"]]), "b": enc_flt([float(x) for x in l["b"]])}
+                  for l in (ms["layers"] if ms["kind"] == "mlp" else [ms])]
+
+        def instr(h_, p):
+            row = enc_flt([float(x) for x in h_["rows"][p]])
+            if h_["kind"] == "primary":
+                return {"kind": "primary", "row": row, "cost": float_bits(float(h_["cost"]))}
+            return {"kind": "listed", "a": float_bits(float(h_["a"])), "b": float_bits(float(h_["b"])), "row": row, "cost": float_bits(float(h_["cost"]))}
+        reqs.append({"op": "grad_h", "features": [feature_json(nm, thr) for nm in names] + ([["prev_hedge"]] if stateful else []),
+                     "layers": layers, "payoff": {"kind": "european" if mk["option"] == "EuropeanOption" else "lookback", "call": mk["call"],
+                                                  "strike": float_bits(float(mk["strike"]))},
+                     "adds": adds, "first": True, "crit": crit_spec,
+                     "paths": [{"market": market_json(mk, p), "hedges": [instr(h_, p) for h_ in hspec]} for p in range(N)]})
+        metas.append((case, float(loss.detach()), gflat, len(wpar)))
+    ctx.extra["multi_cases"] = accepted
+    ctx.extra["multi_rejected_near_kink"] = rejected
+    try:
+        outs = ctx.driver(reqs)
+    except DriverBroken as e:
+        ctx.ties_broken.append({"kind": "driver", "detail": str(e)[:1500]})
+        outs = []
+    for (case, loss, gflat, nw), mo in zip(metas, outs):
+        if "ok" not in mo:
+            ctx.disagree("grad_h", case, gflat, mo)
+            continue
+        ml, mg = float_of_bits(mo["ok"]["loss"]), dec_flt(mo["ok"]["grad"])
+        tol = [1e-9] * len(mg)
+        if nw:      # the criterion's own parameter (OCE's w; float32 in the implementation whatever the market's dtype)
+            mg, tol = mg + [float_of_bits(mo["ok"]["grad_w"])], tol + [1e-5]
+        scale = max(1.0, abs(loss), max([abs(x) for x in gflat] + [0.0]))
+        if not abs(ml - loss) <= 1e-10 * scale:
+            ctx.disagree("grad_h_loss_value", case, loss, ml)
+        elif len(mg) != len(gflat) or any(not abs(a_ - b_) <= t_ * scale for a_, b_, t_ in zip(gflat, mg, tol)):
+            ctx.disagree("grad_h", case, gflat, mg)
+
+
+def check_fit_steps(ctx, torch, nn, Hedger):
+    """The gradient the OPTIMISER is handed at every step of `fit` (the .grad of each parameter it owns at the moment its step() is called) is the
+    gradient of THAT epoch's training loss at the parameter point of that epoch, on that epoch's simulated paths -- for every epoch (>= 2 epochs:
+    nothing of an earlier epoch, or of a backward pass made before fit, is left in it) and for every parameter the optimiser owns, whether it is
+    registered under the hedger module or not:
+      * embed-instance : an optimiser INSTANCE over the model, the criterion and the network of a ModuleOutput feature (an input of the hedger,
+                         NOT a sub-module of it unless it also lives in the model);
+      * hedger-instance: an optimiser instance over hedger.parameters() (model + the criterion's own parameter, OCE's w);
+      * class          : an optimiser CLASS (fit builds it over the model's parameters; a feature network is then constant).
+    The optimiser is a recording subclass of SGD / Adam (lr zero and positive): step() stores the parameter point, the gradients present and the
+    simulated buffers of the underlier, then performs the genuine step.  Afterwards every recorded epoch is rebuilt (parameters and buffers put
+    back) and criterion(compute_portfolio(d), d.payoff()) -- what compute_loss evaluates -- is differentiated by autograd (every epoch) and by
+    central finite differences (last epoch).  Scenarios within the feature / model language of the Lean op "grad_h" (no feature network) are
+    also sent to it: the gradient recorded INSIDE fit vs the eps-parts of `lossOfH` on the recorded paths."""
+    from pfhedge.instruments import BrownianStock, HestonStock, EuropeanOption, LookbackOption
+    from pfhedge.features import ModuleOutput
+    from pfhedge.nn.modules.loss import OCE
+    g = Gen(f"{ctx.seed}:fit_steps")
+    dt = torch.float64
+    n = 20 if ctx.tier == "quick" else 240
+    OWN = ["embed-instance", "embed-instance", "hedger-instance", "class", "embed-class"]
+    CRITS = ["erm", "es", "eloss", "oce_exp", "mse", "oce_quad", "qcvar"]
+    LEAN_CRITS = ("erm", "es", "eloss", "oce_exp", "oce_quad", "mse")
+    reqs, metas = [], []
+    for it in range(n):
+        own = OWN[it % len(OWN)]
+        critk = CRITS[(it // 2) % len(CRITS)]
+        has_embed = own.startswith("embed")
+        prim = g.choice(["BrownianStock", "BrownianStock", "HestonStock"])
+        cost = g.choice([0.0, 2.0 ** -10, 2.0 ** -7])      # (dyadic: pl() passes the cost rates through a float32 tensor; the model keeps them as given)
+        step = g.choice([1 / 250, 1 / 256])
+        stock = BrownianStock(sigma=g.choice([0.2, 0.3]), cost=cost, dt=step, dtype=dt) if prim == "BrownianStock" else HestonStock(cost=cost, dt=step, dtype=dt)
+        opt = g.choice([EuropeanOption, LookbackOption])
+        strike = g.choice([1.0, 1.0, 0.98, 1.03])
+        d = opt(stock, strike=strike, maturity=g.choice([3, 5]) * step)
+        stateful = g.chance(0.6)
+        names = ["moneyness", "time_to_maturity"] + g.choice([[], ["volatility"], ["log_moneyness"]])
+        npaths = g.choice([4, 5, 8])
+        n_epochs = g.choice([2, 3, 3, 4])
+        a = g.choice([0.5, 1.0, 2.0])
+        k = g.choice([1, 2, 3])
+        w0, util = None, None
+        if critk == "erm":
+            crit, crit_spec = nn.EntropicRiskMeasure(a), ["erm", float_bits(a)]
+        elif critk == "eloss":
+            crit, crit_spec = nn.EntropicLoss(a), ["eloss", float_bits(a)]
+        elif critk == "es":
+            crit, crit_spec = nn.ExpectedShortfall(k / npaths), ["es", k]
+        elif critk == "mse":
+            crit, crit_spec = torch.nn.MSELoss(), ["mse"]
+        elif critk == "qcvar":
+            crit, crit_spec = nn.QuadraticCVaR(2.0), None
+        else:
+            w0 = g.choice([0.0, 0.25, -0.5])
+            if critk == "oce_exp":
+                util = ["exp", float_bits(a)]
+                crit = OCE(lambda x, a_=a: 1 - (-(a_ * x)).exp())
+            else:
+                qa, qb = g.choice([-0.125, -0.0625, -0.25]), g.choice([1.0, 0.5])
+                util = ["quad", float_bits(qa), float_bits(qb)]
+                crit = OCE(lambda x, a_=qa, b_=qb: a_ * x * x + b_ * x)
+            with torch.no_grad():
+                crit.w.fill_(w0)
+            crit_spec = None      # (w moves during fit: the specification is written per recorded epoch)
+        torch.manual_seed(g.randint(0, 10 ** 6))
+        base = names + (["prev_hedge"] if stateful else [])
+        embed = None
+        if has_embed:
+            embed = torch.nn.Sequential(torch.nn.Linear(len(base), 2, dtype=dt), torch.nn.Tanh())
+            feats = [ModuleOutput(embed, base), g.choice(["volatility", "moneyness"])] + (["prev_hedge"] if stateful and g.chance(0.5) else [])
+        else:
+            feats = base
+        hidden = g.chance(0.4)
+        width = len(feats) + (1 if has_embed else 0)      # (the feature network has two outputs)
+        if hidden:
+            model = torch.nn.Sequential(torch.nn.Linear(width, 2, dtype=dt), torch.nn.ReLU() if not has_embed else torch.nn.Tanh(), torch.nn.Linear(2, 1, dtype=dt))
+        else:
+            model = torch.nn.Linear(width, 1, dtype=dt)
+        hedger = Hedger(model, feats, criterion=crit)
+        allp = list(model.parameters()) + list(crit.parameters()) + (list(embed.parameters()) if embed is not None else [])
+        okind, lr = g.choice([("SGD", 0.0), ("SGD", 0.05), ("Adam", 0.01)])
+        validation = g.chance(0.4)
+        stale = g.chance(0.4)          # a backward pass made by the user before fit leaves .grad on every parameter
+        explicit_hedge = g.chance(0.3)
+        log = []
+
+        class Rec(getattr(torch.optim, okind)):
+            def __init__(self, params, lr=lr):
+                super().__init__(params, lr=lr)
+
+            def step(self, closure=None):
+                owned_ = [p_ for gr_ in self.param_groups for p_ in gr_["params"]]
+                log.append({"point": [p_.detach().clone() for p_ in allp],
+                            "grads": [torch.zeros_like(p_) if p_.grad is None else p_.grad.detach().clone() for p_ in owned_],
+                            "buffers": {nm_: b_.detach().clone() for nm_, b_ in stock.named_buffers()}})
+                return super().step(closure)
+        if own == "embed-instance":
+            optimizer = Rec(allp)
+        elif own == "hedger-instance":
+            optimizer = Rec(hedger.parameters())
+        else:
+            optimizer = Rec
+        case = {"fit_steps": it, "optimizer": f"{okind}(lr={lr})", "owns": own, "criterion": critk, "a": a, "k": k, "w": w0, "features": [f_ if isinstance(f_, str) else "module_output(embed)" for f_ in feats],
+                "embed_inputs": base if has_embed else None, "hidden": hidden, "n_paths": npaths, "n_epochs": n_epochs, "validation": validation,
+                "stale_grad_before_fit": stale, "explicit_hedge": explicit_hedge, "primary": prim, "option": opt.__name__, "cost": cost, "strike": strike,
+                "dt": step, "maturity": d.maturity}
+        ctx.case(case, True, tag="fit_steps")
+        ctx.stats[f"fit_steps:owns={own}"] += 1
+        ctx.stats[f"fit_steps:crit={critk}"] += 1
+        if stale:
+            st, res, _ = call_impl(lambda: hedger.compute_loss(d, n_paths=npaths).backward())
+            if st != "ok":
+                ctx.fail("compute_loss().backward() raised", case, key="fit-step:error", detail=res)
+                continue
+        seed = g.randint(0, 10 ** 6)
+        torch.manual_seed(seed)
+        kw = {"hedge": [stock]} if explicit_hedge else {}
+        st, res, _ = call_impl(hedger.fit, d, n_epochs=n_epochs, n_paths=npaths, n_times=g.choice([1, 2]), optimizer=optimizer, verbose=False,
+                               validation=validation, **kw)
+        if st != "ok":
+            ctx.fail("fit raised", case | {"seed": seed}, key="fit-step:error", detail=res)
+            continue
+        if len(log) != n_epochs:
+            ctx.fail("fit did not call the optimiser's step() once per epoch", case | {"seed": seed}, key="fit-step:steps", detail=len(log))
+            continue
+        owned = list(hedger.parameters()) if own == "hedger-instance" else allp if own == "embed-instance" else list(model.parameters())
+        ptol = []
+        for p_ in owned:      # OCE's own parameter w is float32 whatever the market's dtype
+            ptol += [1e-9 if p_.dtype == torch.float64 else 1e-5] * p_.numel()
+
+        def flat(gs):
+            out = []
+            for p_, gr in zip(owned, gs):
+                out += ([0.0] * p_.numel() if gr is None else [float(x) for x in gr.reshape(-1).tolist()])
+            return out
+
+        def loss_fn():
+            pf = hedger.compute_portfolio(d, **kw)
+            return crit(pf, d.payoff())
+        hedger.train()
+        ctx.traces += 1
+        for ep, rec in enumerate(log):
+            with torch.no_grad():
+                for p_, v_ in zip(allp, rec["point"]):
+                    p_.copy_(v_)
+            for nm_, b_ in rec["buffers"].items():
+                stock.register_buffer(nm_, b_.clone())
+            got = flat(rec["grads"])
+            st, loss, _ = call_impl(loss_fn)
+            gs = loss
+            if st == "ok":      # (a loss without graph moves no parameter: zero gradient)
+                st, gs, _ = (call_impl(torch.autograd.grad, loss, owned, allow_unused=True) if loss.requires_grad else ("ok", [None] * len(owned), []))
+            if st != "ok":
+                ctx.fail("recomputing the training loss of an epoch of fit on its recorded paths raised", case | {"seed": seed, "epoch": ep}, key="fit-step:error",
+                         detail=gs)
+                break
+            want = flat(gs)
+            lossv = float(loss.detach())
+            scale = max(1.0, abs(lossv), max(abs(x) for x in want))
+            badi = [i for i, (a_, b_, t_) in enumerate(zip(got, want, ptol)) if not abs(a_ - b_) <= t_ * scale]
+            if badi:
+                ctx.fail("the gradient present at an optimiser step of fit is not the gradient of that epoch's training loss (autograd of "
+                         "criterion(compute_portfolio, payoff) at the epoch's parameter point on the epoch's recorded paths)",
+                         case | {"seed": seed, "epoch": ep}, key=f"fit-step:autograd:{own}", detail={"in_fit": got, "of_the_loss": want, "params": badi})
+                break
+            if ep + 1 < len(log):
+                continue
+            # ---- last epoch: central finite differences of the loss on the recorded paths
+            for h, hs_ in ((2.0 ** -20, 2.0 ** -12), (2.0 ** -28, 2.0 ** -16)):
+                fd = []
+                with torch.no_grad():
+                    for p_ in owned:
+                        fl = p_.view(-1)
+                        hh = h if p_.dtype == torch.float64 else hs_      # (steps that are exact in float32 for OCE's w)
+                        for i in range(fl.numel()):
+                            old = fl[i].clone()
+                            fl[i] = old + hh
+                            up, lp = float(fl[i]), float(loss_fn())
+                            fl[i] = old - hh
+                            dn, lm = float(fl[i]), float(loss_fn())
+                            fl[i] = old
+                            fd.append((lp - lm) / (up - dn))      # (the step actually made: w has moved off the float32 grid of hh)
+                scale = max(1.0, max(abs(x) for x in fd), abs(lossv))
+                tol = 2e-5 if h > 1e-7 else 1e-3
+                badi = [i for i, (a_, b_) in enumerate(zip(got, fd)) if not abs(a_ - b_) <= tol * scale]
+                if not badi or not all(math.isfinite(x) for x in got):
+                    break
+            if badi:
+                ctx.fail("the gradient present at the last optimiser step of fit differs from the derivative of that epoch's training loss (finite differences "
+                         "at the epoch's parameter point on the epoch's recorded paths)", case | {"seed": seed, "epoch": ep}, key=f"fit-step:fd:{own}",
+                         detail={"in_fit": got, "finite_difference": fd, "params": badi})
+                break
+            # ---- model (dual numbers), op "grad_h", on the recorded paths of the last epoch: no feature network, a criterion of `CritH`
+            if has_embed or critk not in LEAN_CRITS:
+                continue
+            spot = rec["buffers"]["spot"]
+            N, T = spot.shape
+            if "variance" in rec["buffers"]:
+                var = rec["buffers"]["variance"]
+                vol = var.clamp(min=0.0).sqrt()
+            else:
+                vol = torch.full_like(spot, float(stock.sigma))
+                var = vol * vol
+            mk = {"T": T, "spot": spot.tolist(), "var": var.tolist(), "vol": vol.tolist(), "listed": (1.0, 0.0), "dt": step, "strike": strike}
+            lins = [m_ for m_ in model.modules() if isinstance(m_, torch.nn.Linear)]
+            layers = [{"w": enc_flt(l_.weight.detach().tolist()), "b": enc_flt(l_.bias.detach().tolist())} for l_ in lins]
+            cspec = crit_spec if w0 is None else ["oce", util, float_bits(float(crit.w.detach()))]
+            reqs.append({"op": "grad_h", "features": [feature_json(nm) for nm in base], "layers": layers,
+                         "payoff": {"kind": "european" if opt is EuropeanOption else "lookback", "call": True, "strike": float_bits(strike)},
+                         "adds": [], "first": True, "crit": cspec,
+                         "paths": [{"market": market_json(mk, p), "hedges": [{"kind": "primary", "row": enc_flt(mk["spot"][p]), "cost": float_bits(cost)}]}
+                                   for p in range(N)]})
+            by_id = {id(p_): gr for p_, gr in zip(owned, rec["grads"])}
+            gm = [float(x) for p_ in model.parameters() for x in by_id[id(p_)].reshape(-1).tolist()]
+            gw = float(by_id[id(crit.w)]) if w0 is not None and id(crit.w) in by_id else None
+            metas.append((case | {"seed": seed, "epoch": ep}, lossv, gm, gw))
+    ctx.extra["fit_step_scenarios"] = n
+    ctx.extra["fit_step_scenarios_sent_to_grad_h"] = len(reqs)
+    try:
+        outs = ctx.driver(reqs) if reqs else []
+    except DriverBroken as e:
+        ctx.ties_broken.append({"kind": "driver", "detail": str(e)[:1500]})
+        outs = []
+    for (case, loss, gm, gw), mo in zip(metas, outs):
+        if "ok" not in mo:
+            ctx.disagree("grad_h_fit_step", case, gm, mo)
+            continue
+        ml, mg = float_of_bits(mo["ok"]["loss"]), dec_flt(mo["ok"]["grad"])
+        scale = max(1.0, abs(loss), max([abs(x) for x in gm] + [0.0]))
+        if not abs(ml - loss) <= 1e-10 * scale:
+            ctx.disagree("grad_h_fit_step_loss_value", case, loss, ml)
+        elif len(mg) != len(gm) or any(not abs(a_ - b_) <= 1e-9 * scale for a_, b_ in zip(gm, mg)):
+            ctx.disagree("grad_h_fit_step", case, gm, mg)
+        elif gw is not None and not abs(gw - float_of_bits(mo["ok"]["grad_w"])) <= 1e-5 * scale:
+            ctx.disagree("grad_h_fit_step", case, gw, float_of_bits(mo["ok"]["grad_w"]))
 
 
 def check(ctx):
@@ -26,7 +481,7 @@ def check(ctx):
     ctx.lean_gate()
     dt = torch.float64
     n = 300 if ctx.tier == "quick" else 3000
-    reqs, metas = [], []
+    reqs, metas, reqs_h = [], [], []
     rejected = 0
     for it in range(n):
         mk = gen_market(g, N=g.choice([2, 3, 4, 5]), T=g.choice([2, 3, 4, 5]), primary=g.choice(["BrownianStock", "HestonStock"]))
@@ -161,13 +616,22 @@ def check(ctx):
                      "features": [feature_json(nm, thr) for nm in names] + ([["prev_hedge"]] if stateful else []),
                      "layers": layers, "cost": float_bits(float(mk["cost"])), "payoffs": enc_flt(pay), "crit": crit_spec, "n": T})
         metas.append((case, float(loss.detach()), gflat))
+        # the same scenario for the op "grad_h" (`lossOfH` = `hedgerPL` on every path + criterion, the definitions the H >= 1 theorems are about):
+        # one primary hedging instrument (the derivative's own underlier); here the MODEL computes the payoff from the option's specification
+        reqs_h.append({"op": "grad_h", "features": reqs[-1]["features"], "layers": layers,
+                       "payoff": {"kind": "european" if mk["option"] == "EuropeanOption" else "lookback", "call": mk["call"],
+                                  "strike": float_bits(float(mk["strike"]))},
+                       "adds": [], "first": True, "crit": crit_spec,
+                       "paths": [{"market": market_json(mk, p), "hedges": [{"kind": "primary", "row": enc_flt([float(x) for x in mk["spot"][p]]),
+                                                                            "cost": float_bits(float(mk["cost"]))}]} for p in range(N)]})
     ctx.extra["rejected_near_kink"] = rejected
     try:
         outs = ctx.driver(reqs)
+        outs_h = ctx.driver(reqs_h)
     except DriverBroken as e:
         ctx.ties_broken.append({"kind": "driver", "detail": str(e)[:1500]})
-        outs = []
-    for (case, loss, gflat), mo in zip(metas, outs):
+        outs, outs_h = [], []
+    for (case, loss, gflat), mo, mh in zip(metas, outs, outs_h):
         if "ok" not in mo:
             ctx.disagree("grad", case, gflat, mo)
             continue
@@ -177,6 +641,20 @@ def check(ctx):
             ctx.disagree("grad_loss_value", case, loss, ml)
         elif len(mg) != len(gflat) or any(abs(a_ - b_) > 1e-9 * scale for a_, b_ in zip(gflat, mg)):
             ctx.disagree("grad", case, gflat, mg)
+        # "grad_h" on the same scenario: against the implementation (same tolerances) and against "grad"
+        ctx.stats["grad_h:H=1"] += 1
+        if "ok" not in mh:
+            ctx.disagree("grad_h", case, gflat, mh)
+            continue
+        hl, hg = float_of_bits(mh["ok"]["loss"]), dec_flt(mh["ok"]["grad"])
+        if not abs(hl - loss) <= 1e-10 * scale:
+            ctx.disagree("grad_h_loss_value", case, loss, hl)
+        elif len(hg) != len(gflat) or any(not abs(a_ - b_) <= 1e-9 * scale for a_, b_ in zip(gflat, hg)):
+            ctx.disagree("grad_h", case, gflat, hg)
+        elif len(hg) != len(mg) or not abs(hl - ml) <= 1e-10 * scale or any(not abs(a_ - b_) <= 1e-9 * scale for a_, b_ in zip(mg, hg)):
+            ctx.disagree("grad_vs_grad_h", case, [ml] + mg, [hl] + hg)
+    check_multi(ctx, torch, nn, Hedger)
+    check_fit_steps(ctx, torch, nn, Hedger)
     # ---------------- evaluation-only quantities carry no graph; ensembles (n_times >= 2) have the gradient of their mean
     from pfhedge.instruments import BrownianStock, HestonStock, EuropeanOption, LookbackOption
     from pfhedge.nn.modules.loss import OCE
@@ -444,4 +922,20 @@ def check(ctx):
              "fit(validation=True); besides the linear model (+/- ModuleOutput embedding): a no-transaction-band strategy whose trainable band edges "
              "are the tensor bounds of pfhedge's Clamp / LeakyClamp (relu / leaky-relu / softplus widths; cases within 2^-16 of a clamp / activation "
              "kink rejected and counted) and a Black-Scholes module evaluated at a trainable strike shift and volatility mark-up, step-by-step (with "
-             "a trainable partial adjustment of prev_hedge) and all steps at once")
+             "a trainable partial adjustment of prev_hedge) and all steps at once. "
+             "Op grad_h (the model lossOfH = hedgerPL on every path + applyCritH, the definitions the H >= 1 theorems of Lemmas/C14Multi.lean are "
+             "stated about, at Dual Float): every one-instrument scenario above is also sent to it (must agree with the implementation and with "
+             "op grad; the model computes the payoff itself); plus 50 (quick) / 500 (thorough) accepted scenarios with H in {2,3} hedging "
+             "instruments (the underlier + listed a*S+b derivatives on another / the same underlier + further primaries, each with its own cost "
+             "rate in {0, 1/128 .. 1/8}), linear / ReLU-MLP models with H outputs, with and without prev_hedge (width H), criteria ERM / ES / "
+             "entropic loss / MSE / mean / isoelastic a in {1, 1/4, 1/2, 3/4} on positive wealth (a payoff-shifting clause of the derivative, "
+             "mirrored by the model's clause) / OCE (utilities 1-exp(-a x), a x^2 + b x) with its own float32 parameter w (its gradient entry "
+             "compared at 1e-5, the others at 1e-9 of the scale; loss at 1e-10), autograd vs finite differences (predicate) and vs the "
+             "eps-parts (correspondence); cases within 2^-20 of a kink of an instrument with a non-zero cost rate / a ReLU / an ES tie, or "
+             "with wealth < 1 for the isoelastic loss, are rejected and counted (multi_rejected_near_kink). "
+             "Inside fit: 20 (quick) / 240 (thorough) runs of fit over 2-4 epochs with a recording SGD / Adam optimiser (lr 0 and positive) given as an "
+             "instance over model + criterion + the network of a ModuleOutput feature (parameters outside hedger.parameters()), as an instance over "
+             "hedger.parameters() (incl. OCE's w) or as a class, with and without validation, an explicit hedge list, a backward pass made before fit "
+             "(stale .grad); the gradient present at every step() vs autograd of criterion(compute_portfolio, payoff) at that epoch's parameter point on "
+             "that epoch's recorded buffers (1e-9 / 1e-5 of the scale), vs central finite differences at the last epoch, and (no feature network, "
+             "criterion of CritH, dyadic cost rates) vs the eps-parts of op grad_h on the recorded paths")
